@@ -1,0 +1,40 @@
+// Observation hooks for the runtime-verification harness. Everything in here is
+// compiled only when NIX_VERIF_HOOKS is defined; without it the macro is empty
+// and src/verif_hooks.cpp compiles to nothing.
+
+#ifndef NIX_VERIF_HOOKS_HPP
+#define NIX_VERIF_HOOKS_HPP
+
+#ifdef NIX_VERIF_HOOKS
+
+#include <nix/Platform.hpp>
+#include <string>
+
+namespace nix {
+namespace verif {
+
+typedef void (*sink_t)(const char *kind, const std::string &detail);
+
+// install (or with nullptr remove) the receiver of hook events
+NIXAPI void setSink(sink_t sink);
+NIXAPI bool armed();
+NIXAPI void emit(const char *kind, const std::string &detail);
+
+// deliberately misbehaving code (1: heap overflow, 2: signed overflow,
+// 3: memcpy from null) used to prove that a sanitizer build of the
+// library is really instrumented
+NIXAPI int canary(int kind);
+
+} // namespace verif
+} // namespace nix
+
+#define NIX_VERIF_EMIT(kind, expr) \
+    do { if (nix::verif::armed()) nix::verif::emit(kind, expr); } while (0)
+
+#else
+
+#define NIX_VERIF_EMIT(kind, expr) do { } while (0)
+
+#endif // NIX_VERIF_HOOKS
+
+#endif // NIX_VERIF_HOOKS_HPP
